@@ -17,6 +17,16 @@ class ZoneAnalysis:
         self.sums = {}
         self._consts = None
 
+    def closure_creator(self, cpath):
+        """(creating body path, block, aggregate rvalue) of a closure body"""
+        if getattr(self, '_creators', None) is None:
+            self._creators = {}
+            for p, b in self.prog.bodies.items():
+                for bi, st in b.stmts():
+                    if st['k'] == 'assign' and st['rv']['k'] == 'agg' and st['rv'].get('ak') == 'closure':
+                        self._creators[st['rv']['name']] = (p, bi, st['rv'])
+        return self._creators.get(cpath)
+
     def zf(self, path):
         if path not in self._zf:
             self._zf[path] = ZoneFn(self, self.prog.bodies[path])
@@ -48,9 +58,15 @@ class ZoneAnalysis:
         iteration of a single counting loop (and nothing else mutates it)."""
         fd, body = zf.fd, zf.body
         ds = fd.defs.get(root, [])
-        creators = [d for d in ds if d[0] == 'call' and (d[2].get('callee') or '').endswith(('Vec::<T>::new', 'Vec::<T>::with_capacity'))]
+        creators = [d for d in ds if d[0] == 'call' and (d[2].get('callee') or '').endswith(('Vec::<T>::new', 'Vec::<T>::with_capacity', 'vec::from_elem'))]
         if len(ds) != 1 or len(creators) != 1:
             return None
+        initial = None
+        if (creators[0][2].get('callee') or '').endswith('vec::from_elem'):
+            # vec![x; n]: n elements from the start
+            initial = zf.term_op(creators[0][2]['args'][1]) if len(creators[0][2]['args']) == 2 else None
+            if initial is None:
+                return None
         pushes = []
         for bi, t in body.calls():
             cal = t.get('callee') or ''
@@ -69,6 +85,8 @@ class ZoneAnalysis:
                         for c in ci[1]:
                             if c['k'] in ('copy', 'move') and body.local_ty(c['pl']['l']).startswith('&mut ') and fd.resolve_place(c['pl'])[0] == root:
                                 return None
+        if initial is not None:
+            return initial if not pushes else None
         if not pushes:
             return (None, 0)
         in_loop = [pb for pb in pushes if any(pb in blocks for h, blocks in zf.loops)]
@@ -253,6 +271,9 @@ class ZoneAnalysis:
         if s.startswith('len:'):
             name = s[4:].split('.')[0]
             return zf.body.param_index(name) is not None
+        if s.startswith('elem:'):
+            name = s[5:].split('.')[0]
+            return zf.body.param_index(name) is not None
         if s.startswith('N:'):
             return True
         return False
@@ -322,16 +343,25 @@ class ZoneAnalysis:
                     for p, t in s['retlen'].items():
                         cands.setdefault(prefix + p, []).append(self.subst(zf, d[2], t))
 
-    def subst(self, zf, call, t):
+    def subst(self, zf, call, t, tgt=None, args=None):
         """callee term (parameter symbols) -> caller term at this call site."""
         if t is None:
             return None
         s, c = t
         if s is None:
             return t
-        tgt = local_target(self.eng, call)
+        if tgt is None:
+            tgt = local_target(self.eng, call)
         cbody = self.prog.bodies[tgt]
-        args = call['args']
+        if args is None:
+            args = call['args']
+        if s.startswith('elem:'):
+            parts = s[5:].split('.')
+            k = cbody.param_index(parts[0])
+            if k is None or k - 1 >= len(args) or args[k - 1]['k'] not in ('copy', 'move') or len(parts) > 1:
+                return None
+            es = zf.elem_sym_of_desc(zf.desc_place(args[k - 1]['pl']))
+            return (es, c) if es is not None else None
         if s.startswith('p') and s[1:].isdigit():
             k = int(s[1:])
             if k - 1 < len(args):
